@@ -15,6 +15,9 @@ CLAIMED = {
     "C10": ("proof", "closed forms of the missing-node/child wrapper (generic in the wrapped handler), the request logic and the marker clearing; table facts on which handlers carry the wrapper"),
     "C11": ("proof", "allocation step theorem for every registry and fault stream; registered ids only grow over all histories"),
     "C12": ("proof", "trichotomy proved for every case but one; the remaining case (internal command, buffering allowed) proved refuted = known finding"),
+    "C13": ("proof", "round-trip theorem for every well-formed registry (all attributes, children, values, arbitrary integers and strings), legacy-layout theorem; the marshmallow field semantics of the model are tied to the library by ~6000 differential cases per run; JSON text layer assumed"),
+    "C14": ("proof", "PARTIAL: in the model the read error is the only failure (by construction); proved: what is accepted, atomicity of a failing load, empty file; that no other exception class escapes the real load is decided by the differential run"),
+    "C15": ("proof", "the property is proved REFUTED for save-in-place (known finding), its exact extent is a theorem (old / empty registry / read error / new per crash point) and the property is proved for write-temp-then-rename; crash points are enumerated on the real save through an intercepting file layer"),
     "C19": ("proof", "PARTIAL: table monotonicity and identical dispatch chains per version pair by complete computation on the generated tables, heartbeat difference as theorems; end-to-end equality of histories is decided by running two real gateways and the model"),
 }
 NOT_YET = {}
